@@ -192,6 +192,24 @@ def transcendental_leaves(rep: Report, rng: random.Random):
     flip2 = np.asarray(bj.Flip((2, 3)).transform(jnp.arange(6.0).reshape(2, 3)))
     if not np.array_equal(flip2, np.arange(6.0).reshape(2, 3)[::-1, ::-1]):
         rep.violation({"bijection": "Flip", "shape": (2, 3)}, f"Flip((2,3)).transform = {flip2.tolist()}")
+    # Permute of any rank: "elements 0..size-1 representing the new order based on the flattened array (C order)"
+    for i in range(12):
+        rs = np.random.default_rng(rng.randrange(2**31))
+        shp = [(2, 3), (3, 2), (2, 2, 2), (1, 4), (6,), (2, 1, 3)][i % 6]
+        n = int(np.prod(shp))
+        perm = rs.permutation(n)
+        x = rs.normal(size=shp)
+        rep.count(1, ("permute-rank", shp, i))
+        try:
+            b = bj.Permute(perm.reshape(shp))
+            y = np.asarray(b.transform(jnp.asarray(x)))
+            back = np.asarray(b.inverse(jnp.asarray(y)))
+        except Exception as e:  # noqa: BLE001
+            rep.violation({"bijection": "Permute", "shape": shp, "error": type(e).__name__}, f"Permute{shp}: {type(e).__name__}: {e}")
+            continue
+        if not np.array_equal(y, x.ravel()[perm].reshape(shp)) or not np.array_equal(back, x):
+            rep.violation({"bijection": "Permute", "shape": shp, "what": "value"},
+                          f"Permute({perm.reshape(shp).tolist()}).transform({x.tolist()}) = {y.tolist()}; the stated reordering gives {x.ravel()[perm].reshape(shp).tolist()}")
     # AdditiveCondition: x + f(condition)
     W = np.array([[1.0, -2.0], [0.5, 3.0], [4.0, 0.25]])
     ac = bj.AdditiveCondition(lambda cnd: jnp.asarray(W) @ cnd, (3,), (2,))
